@@ -79,17 +79,24 @@ def r18_1(ctx):
     rep, model = ctx.rep, ctx.model
     rep.rule("R18.1", "appended drift channel == 1/2 sum_dim1 ((f-h)/g)^2 (diagonal) or 1/2 sum_dim1 (pinv(g)(f-h))^2 "
                       "(general); R18.2 sibling agreement; R18.3 base output unmodified, zero diffusion row, y[:, :-1]")
-    t, y = nf.sym("t", True), nf.sym("y")
-    ys = nf.linear("getitem[:,:-1]", (), y)
-    Fv, Gv, Hv = nf.fn("F", t, ys), nf.fn("G", t, ys), nf.fn("H", t, ys)
-    for nt in ("diagonal", "general"):
+    for nt, (tname, yname), warm in [(n, names, w) for n in ("diagonal", "general", "additive", "scalar")
+                                     for names, w in ((("t", "y"), False), (("t2", "y2"), True))]:
+        t, y = nf.sym(tname, True), nf.sym(yname)
+        ys = nf.linear("getitem[:,:-1]", (), y)
+        Fv, Gv, Hv = nf.fn("F", t, ys), nf.fn("G", t, ys), nf.fn("H", t, ys)
         obj, it, hooks = make_logqp(model, nt)
+        if warm:
+            # the same wrapper object has already been evaluated at another (time, state): results must not depend on it
+            t0_, y0_ = nf.sym("t_first", True), nf.sym("y_first")
+            for slot in ("f", "g", "f_and_g"):
+                it.call(obj.attrs.get(slot), [t0_, y0_], {})
         slots = {}
         for slot in ("f", "g", "f_and_g"):
             bm = obj.attrs.get(slot)
             if bm is None:
                 raise AnalysisError(f"SDELogqp does not register `{slot}` for {nt} noise", where=BASE_SDE)
             slots[slot] = (bm, it.call(bm, [t, y], {}))
+        nt_tag = nt + ("/second-evaluation" if warm else "")
         u = (Fv - Hv) / Gv if nt == "diagonal" else nf.bilinear("mvp", nf.fn("pinv", Gv), Fv - Hv)
         want_extra = Fraction(1, 2) * nf.linear("sum[dim=1,keepdim=True]", (), u * u)
         for slot in ("f", "f_and_g"):
@@ -98,10 +105,10 @@ def r18_1(ctx):
             rep.analysed(fi)
             drift = val if slot == "f" else val[0]
             base, extra = _parts(drift, f"{fi.qualname} drift", fi)
-            rep.check(nf.equal(extra, want_extra), "R18.1", astq.loc(fi), f"{fi.key}::R18.1::integrand",
+            rep.check(nf.equal(extra, want_extra), "R18.1", astq.loc(fi), f"{fi.key}::R18.1::integrand::{nt_tag}",
                       f"{fi.qualname}: the log-ratio channel is `{extra}`; the KL integrand is 1/2 |g^+ (f - h)|^2 = "
                       f"`{want_extra}`", "1/2 sum_dim1 u^2, u = g^+ (f - h)")
-            rep.check(nf.equal(base, Fv), "R18.3", astq.loc(fi), f"{fi.key}::R18.3::base-drift",
+            rep.check(nf.equal(base, Fv), "R18.3", astq.loc(fi), f"{fi.key}::R18.3::base-drift::{nt_tag}",
                       f"{fi.qualname}: the state block of the drift is `{base}`, not the base drift f(t, y[:, :-1]): the "
                       f"state trajectory would differ from the one without logqp", "base drift on y[:, :-1]")
         for slot in ("g", "f_and_g"):
@@ -110,16 +117,16 @@ def r18_1(ctx):
             rep.analysed(fi)
             diff = val if slot == "g" else val[1]
             base, extra = _parts(diff, f"{fi.qualname} diffusion", fi)
-            rep.check(nf.equal(base, Gv), "R18.3", astq.loc(fi), f"{fi.key}::R18.3::base-diffusion",
+            rep.check(nf.equal(base, Gv), "R18.3", astq.loc(fi), f"{fi.key}::R18.3::base-diffusion::{nt_tag}",
                       f"{fi.qualname}: the state block of the diffusion is `{base}`, not g(t, y[:, :-1])",
                       "base diffusion on y[:, :-1]")
-            rep.check(nf.equal(extra, Rat.const(0)), "R18.3", astq.loc(fi), f"{fi.key}::R18.3::zero-row",
+            rep.check(nf.equal(extra, Rat.const(0)), "R18.3", astq.loc(fi), f"{fi.key}::R18.3::zero-row::{nt_tag}",
                       f"{fi.qualname}: the diffusion of the log-ratio channel is `{extra}`, not zero: noise would enter "
                       f"the integral", "zero diffusion for the extra channel")
         # siblings
         fa = slots["f_and_g"][1]
         same = isinstance(fa, tuple) and len(fa) == 2 and _cat_equal(fa[0], slots["f"][1]) and _cat_equal(fa[1], slots["g"][1])
-        rep.check(same, "R18.2", astq.loc(slots["f_and_g"][0].fi), f"{slots['f_and_g'][0].fi.key}::R18.2::siblings",
+        rep.check(same, "R18.2", astq.loc(slots["f_and_g"][0].fi), f"{slots['f_and_g'][0].fi.key}::R18.2::siblings::{nt_tag}",
                   f"f_and_g for {nt} noise differs from (f, g): solvers using different methods would integrate different "
                   f"integrands", "f_and_g == (f, g)")
     ctx.floor("R18.1", 4)
